@@ -46,6 +46,7 @@ type peer struct {
 	conn      net.Conn
 	kind      peerKind
 	threshold int
+	simul     bool
 	interval  time.Duration
 	t6        time.Duration
 	wmu       sync.Mutex
@@ -110,6 +111,12 @@ func (p *peer) run() {
 			// earlier than this); stamping after the write returned made the measured time too short
 			// whenever this goroutine was descheduled in between (a false alarm under load)
 			t0 := time.Now().UnixNano()
+			if p.simul {
+				// our own Select.req first: the library answers it (status 0) and is Selected by its
+				// responder path before it sees the answer to its own request
+				_ = p.write(hsms.NewSelectReq(cm.SessionID(), [4]byte{0x7f, 0, 0, 1}).ToBytes())
+				time.Sleep(p.interval / 8)
+			}
 			if p.write(rsp.ToBytes()) == nil {
 				p.selectedT.Store(t0)
 				if p.kind == chatty {
@@ -184,6 +191,7 @@ type scenario struct {
 	kind      peerKind
 	threshold int
 	suppress  bool
+	simul     bool // simultaneous select (E37 7.4.3): the peer sends its OWN Select.req before answering ours, so the active library commits Selected through its responder path
 	scale     int // all protocol timings are multiplied by this (1, or 4 on a re-run after a punctuality alarm)
 }
 
@@ -205,7 +213,7 @@ func runScenario(c *vh.Ctx, sc scenario) {
 			k = answering // the generation after a linktest disconnect: a healthy peer
 		}
 		dials++
-		p := &peer{conn: b, kind: k, threshold: sc.threshold, interval: interval, t6: t6, stop: make(chan struct{}), done: make(chan struct{})}
+		p := &peer{conn: b, kind: k, threshold: sc.threshold, simul: sc.simul && dials == 1, interval: interval, t6: t6, stop: make(chan struct{}), done: make(chan struct{})}
 		peers = append(peers, p)
 		go p.run()
 		return a, nil
@@ -234,6 +242,9 @@ func runScenario(c *vh.Ctx, sc scenario) {
 		conn.AddDataMessageHandler(func(*hsms.DataMessage, hsms.SECS2Endpoint) { time.Sleep(t6 + 20*time.Millisecond) })
 	}
 	name := fmt.Sprintf("E peer=%s threshold=%d suppress=%s", kindName[sc.kind], sc.threshold, vh.B01(sc.suppress))
+	if sc.simul {
+		name += " simultaneous-select"
+	}
 	ctx, cancel := context.WithTimeout(context.Background(), 5*time.Second)
 	err = conn.Open(ctx, hsms.OpenWaitSelected)
 	cancel()
@@ -344,6 +355,10 @@ func main() {
 			}
 			for _, th := range ths {
 				scs = append(scs, scenario{kind: k, threshold: th, suppress: sup})
+			}
+			if k == silent || k == answering {
+				// the linktest must run whichever path made the session Selected
+				scs = append(scs, scenario{kind: k, threshold: ths[0], suppress: sup, simul: true})
 			}
 		}
 	}
